@@ -289,7 +289,17 @@ def _polarized_oracle(ctx, n):
     return out
 
 
+def _plumbing_result(ctx):
+    """what tools/py2coq_plumb.py regenerated on this run (the theorems *_is_regenerated_plumbing are about these lists)"""
+    pl = {k: m for k, m in (getattr(ctx, 'manifests', None) or {}).items() if isinstance(m, dict) and m.get('plumbing')}
+    return {'name': 'plumbing-lists-regenerated-from-source (order and identity of the statements of _trace_real, _interact, '
+                    'localize, globalize, coating interact, group trace)',
+            'n': sum(len(m['steps']) for m in pl.values()), 'nontrivial': len(pl), 'samples': [],
+            'histogram': {k: ' ; '.join(m['steps']) for k, m in sorted(pl.items())}, 'disagreements': []}
+
+
 def system_checks(ctx):
+    yield _plumbing_result(ctx)
     import tracecorr, oracles
     cases, hist = _lens_cases(ctx, ctx.n(40, 500), ctx.n(4, 8))
     res = {'name': 'intensity-model-vs-implementation', 'n': len(cases), 'histogram': hist, 'nontrivial': 0,
